@@ -24,8 +24,8 @@ import Pog.Lemmas.ClientGen
     4  Protocol, APIClient and MockAPIClient written from the SAME tuples agree (C13)    full  `surfaces_agree`
        … `MockAPIClient` as the mocks emitter calls it                                   ✗     `mock_surface_counterexample`, `mock_surface_empty_tag_counterexample`,
                                                                                                `mock_surface_partial`
-    5  `MockAPIClient.__init__` has no body iff there is no operation (C01, F31)          full  `mock_init_body_empty_iff_no_tags`,
-       then `mock_client.py` does not compile                                                  `mock_client_syntax_error_when_no_operation`
+    5  `MockAPIClient.__init__` always has a body (C01, F31 repaired)                     full  `mock_init_body_never_empty`,
+       `mock_client.py` compiles for a document without operations                             `mock_client_compiles_when_no_operation`
        other ways `mock_client.py` does not compile                                      ✗     `mock_duplicate_argument_counterexample`, `mock_self_argument_counterexample`
     6  `_<module>` differs from every property and from `config` / `transport`           ✗     `private_attr_names_distinct_from_public_partial`,
                                                                                                `private_attr_counterexample` (non-ASCII)
@@ -344,20 +344,18 @@ example :
 
 /-! ## 5 — the body of `MockAPIClient.__init__` (C01, finding F31) -/
 
-/-- **F31.**  The `__init__` of `MockAPIClient` has an empty body — a `SyntaxError` — exactly when there is no operation
-    (whichever of the two tuple lists it is written from); the `__init__` of `APIClient` never has. -/
-theorem mock_init_body_empty_iff_no_tags (u : UInfo) (tagss : List (List Str)) :
-    ((mockClientSkel (mockTuples u tagss)).initBodyEmpty = true ↔ tagss = []) ∧
-    ((mockClientSkel (tagTuples u tagss)).initBodyEmpty = true ↔ tagss = []) ∧
-    (apiClientSkel (tagTuples u tagss)).initBodyEmpty = false := by
-  refine ⟨?_, ?_, rfl⟩
-  · rw [← mockTuples_eq_nil_iff u tagss, mockClientSkel_initBodyEmpty]; simp
-  · rw [← tagTuples_eq_nil_iff u tagss, mockClientSkel_initBodyEmpty]; simp
+/-- **F31, repaired.**  The `__init__` of `MockAPIClient` never has an empty body (without tag clients it is `pass`), whichever of
+    the two tuple lists it is written from; nor has the `__init__` of `APIClient`. -/
+theorem mock_init_body_never_empty (u : UInfo) (tagss : List (List Str)) :
+    (mockClientSkel (mockTuples u tagss)).initBodyEmpty = false ∧
+    (mockClientSkel (tagTuples u tagss)).initBodyEmpty = false ∧
+    (apiClientSkel (tagTuples u tagss)).initBodyEmpty = false :=
+  ⟨rfl, rfl, rfl⟩
 
-/-- ✗ witness (defect class `mock-client-empty-init`): a document without operations gives a `mock_client.py` that does
-    not compile, while `client.py` does. -/
-theorem mock_client_syntax_error_when_no_operation (u : UInfo) :
-    mockSyntaxOk (mockTuples u []) = false ∧ visitSyntaxOk (tagTuples u []) = true ∧
+/-- The former witness (defect class `mock-client-empty-init`): a document without operations gives a `mock_client.py` that
+    compiles, like `client.py`. -/
+theorem mock_client_compiles_when_no_operation (u : UInfo) :
+    mockSyntaxOk (mockTuples u []) = true ∧ visitSyntaxOk (tagTuples u []) = true ∧
       (mockClientSkel (mockTuples u [])).initParams = [kSelf] := by
   refine ⟨rfl, rfl, rfl⟩
 
